@@ -160,7 +160,9 @@ class Engine:
 
     def sym_str(self, name):
         """a string known only up to order-isomorphism: an atom of an ordered sort"""
-        return SymStr(self._register(name, z3.Int(name)))
+        c = self._register(name, z3.Int(name))
+        self.solver.add(c >= EMPTY_ATOM)  # the empty string is the least string; it is the one atom with a known text
+        return SymStr(c)
 
     def fresh(self, name, sort):
         self.nfresh += 1
@@ -1066,9 +1068,13 @@ class SymReal(SymNum):
         return self
 
 
+EMPTY_ATOM = -9000000
+
+
 class SymStr(str):
     """A string that is only compared, sorted, hashed and copied: an atom of a
-    totally ordered sort (its text payload is a placeholder)."""
+    totally ordered sort (its text payload is a placeholder).  One atom has a known text: EMPTY_ATOM is the empty string,
+    the least of all strings - so truth tests and comparisons with "" are decidable."""
 
     def __new__(cls, e):
         o = super().__new__(cls, "<name>")
@@ -1079,8 +1085,13 @@ class SymStr(str):
         if isinstance(o, SymStr):
             return SymBool(f(self.e, o.e))
         if isinstance(o, str):
+            if o == "":
+                return SymBool(f(self.e, z3.IntVal(EMPTY_ATOM)))
             raise ModelGap("comparison of a symbolic name with a concrete string %r" % (o,))
         return NotImplemented
+
+    def __bool__(self):
+        return bool(SymBool(self.e != EMPTY_ATOM))
 
     def __eq__(self, o):
         if not isinstance(o, str):
